@@ -333,7 +333,9 @@ func TestDeep(t *testing.T) {
 	// its own dies of stack overflow (not recoverable) well before these depths;
 	// one that bounds its recursion rejects or accepts them in linear time. The
 	// worker's death is attributed through the journal.
-	for _, tp := range []tmpl{{"Rec", `{"next":`, `{}`, `}`}, {"Rec", `{"kids":[`, `{}`, `]}`}, {"All", `{"rString":[`, `"x"`, `]}`}} {
+	for _, tp := range []tmpl{{"Rec", `{"next":`, `{}`, `}`}, {"Rec", `{"kids":[`, `{}`, `]}`}, {"All", `{"rString":[`, `"x"`, `]}`},
+		// a cycle made of oneofs only: no object body on the way down
+		{"RecChoice", `{"again":`, `{}`, `}`}, {"RecChoice", `{"!type":"again","again":`, `{}`, `}`}} {
 		for _, n := range []int{1500000, 3000000} {
 			nd := &nestDoc{Open: tp.open, Mid: tp.mid, Close: tp.close, N: n}
 			doc := nd.text()
